@@ -548,13 +548,11 @@ fn make(name: &str, seed: u64) -> Option<Box<dyn Store>> {
 /// stores made by a builder / build_from; `<family>:<variant>[+saveload]`
 fn bulk_subjects() -> Vec<String> {
     let mut v: Vec<String> = vec![];
-    for c in ["default", "performance", "compression", "security", "raw", "chk2_raw", "chk0_zip3", "chk1_zip1", "blk16", "blk128", "blk256"] {
+    for c in ["default", "performance", "compression", "security", "raw", "chk2_raw", "chk1_zip1", "blk16", "blk256"] {
         v.push(format!("zipoffset:{c}"));
     }
     v.push("zipoffset:default+saveload".into());
-    v.push("zipoffset:raw+saveload".into());
     v.push("zipoffset:batch4_default".into());
-    v.push("zipoffset:batch1_raw".into());
     for c in ["default", "frag1_4", "frag8_8", "nodelim", "delim_all"] {
         v.push(format!("simplezip:{c}"));
     }
@@ -1200,98 +1198,129 @@ fn drive(a: &Args) {
     let bsubs: Vec<String> = bulk_subjects().into_iter().filter(|s| a.wants(s)).collect();
     let all: Vec<(bool, String)> = msubs.iter().map(|s| (false, s.clone())).chain(bsubs.iter().map(|s| (true, s.clone()))).collect();
     let next = AtomicUsize::new(0);
-    let results = std::sync::Mutex::new(Vec::<(String, Value, usize, usize, Vec<String>)>::new());
+    let results = std::sync::Mutex::new(Vec::<(String, Value)>::new());
+    let totals = std::sync::Mutex::new((0usize, 0usize, Vec::<String>::new()));
     let nthreads = a.get_u64("threads", 12) as usize;
     let thorough = a.thorough();
     std::thread::scope(|sc| {
-        for _ in 0..nthreads {
-            sc.spawn(|| loop {
-                let i = next.fetch_add(1, Ordering::SeqCst);
-                if i >= all.len() {
-                    break;
-                }
-                let (bulk, name) = &all[i];
-                let t0 = std::time::Instant::now();
-                let mut tr = Tracer::new(&a.out, &format!("bs-{i:03}"));
-                let mut c = Counters::default();
-                if *bulk {
-                    tr.max_events = 120;
-                    let sizes: Vec<usize> = if thorough {
-                        vec![0, 1, 2, 63, 64, 65, 127, 128, 129, 255, 256, 257, 511, 512, 513, 1023, 1024, 1025, 4097]
-                    } else {
-                        vec![0, 1, 2, 63, 64, 65, 127, 128, 129, 255, 256, 257, 511, 512, 513]
-                    };
-                    for p in PROFILES {
-                        if name.starts_with("zerolen") && *p != "all_empty" {
-                            continue;
-                        }
-                        for &n in &sizes {
-                            // every size with the two irregular profiles; the regular ones and the 64 KiB
-                            // record (x compression level 9 adds up) with a few sizes
-                            let few: &[usize] = if *p == "big_first" { &[1, 65, 129] } else { &[0, 1, 65, 256, 513] };
-                            if !["mixed16", "ragged"].contains(p) && !few.contains(&n) && !(thorough && *p != "big_first") {
-                                continue;
-                            }
-                            bulk_run(&mut tr, &mut c, a, name, p, n);
-                        }
+        for t in 0..nthreads {
+            let (results, totals, next, all) = (&results, &totals, &next, &all);
+            sc.spawn(move || {
+                // subjects recorded to deviate (--isolate) get a trace file of their own, so that one
+                // deviating subject never forces TLC to re-validate the others; the rest share a file per thread
+                let mut shared = Tracer::new(&a.out, &format!("bs-t{t:02}"));
+                shared.max_events = 4000;
+                loop {
+                    let i = next.fetch_add(1, Ordering::SeqCst);
+                    if i >= all.len() {
+                        break;
                     }
-                } else {
-                    tr.max_events = 1500;
-                    let fams = allowed_families(name);
-                    let light: Vec<&'static str> = fams.iter().copied().filter(|f| !f.ends_with("64k")).collect();
-                    let heavy_io = name.contains("plain") || name.contains("l19"); // fsync per record / ~50 ms per put
-                    let (r1, r2, r3) = match (thorough, heavy_io) {
-                        (false, false) => (5, 3, 2),
-                        (false, true) => (2, 1, 1),
-                        (true, false) => (40, 20, 10),
-                        (true, true) => (8, 4, 2),
-                    };
-                    if name.starts_with("triekey") {
-                        for run in 0..r1 {
-                            keyed_run(&mut tr, &mut c, a, name, run, 70, false);
-                            keyed_run(&mut tr, &mut c, a, name, run, 70, true);
-                        }
+                    let (bulk, name) = &all[i];
+                    let t0 = std::time::Instant::now();
+                    let mut own = if isolated(a, name) {
+                        let mut x = Tracer::new(&a.out, &format!("bs-s{i:03}"));
+                        x.max_events = usize::MAX;
+                        Some(x)
                     } else {
-                        for run in 0..r1 {
-                            random_run(&mut tr, &mut c, a, name, "small", run, 50, &["empty", "one", "eq32", "text"]
-                                .iter().copied().filter(|f| fams.contains(f)).collect::<Vec<_>>());
-                        }
-                        for run in 0..r2 {
-                            random_run(&mut tr, &mut c, a, name, "mixed", run, 90, &light);
-                        }
-                        for run in 0..r3 {
-                            random_run(&mut tr, &mut c, a, name, "heavy", run, 40, &fams);
-                        }
-                        let sizes: &[usize] = if heavy_io { &[0, 1, 64, 65] } else { &[0, 1, 63, 64, 65, 127, 128, 129] };
-                        for &n in sizes {
-                            fill_run(&mut tr, &mut c, a, name, n, &fams);
-                        }
-                        if thorough && !heavy_io {
-                            fill_run(&mut tr, &mut c, a, name, 1025, &fams);
-                        }
+                        None
+                    };
+                    let tr: &mut Tracer = match own.as_mut() {
+                        Some(x) => x,
+                        None => &mut shared,
+                    };
+                    let mut c = Counters::default();
+                    if *bulk {
+                        drive_bulk(tr, &mut c, a, name, thorough);
+                    } else {
+                        drive_mutable(tr, &mut c, a, name, thorough);
+                    }
+                    let mut cj = c.json();
+                    cj["wall_ms"] = json!(t0.elapsed().as_millis() as u64);
+                    results.lock().unwrap().push((name.clone(), cj));
+                    if let Some(mut x) = own {
+                        x.close();
+                        let mut g = totals.lock().unwrap();
+                        g.0 += x.total_events;
+                        g.1 += x.runs;
+                        g.2.extend(x.files.iter().map(|p| p.display().to_string()));
                     }
                 }
-                tr.close();
-                let files = tr.files.iter().map(|p| p.display().to_string()).collect();
-                let mut cj = c.json();
-                cj["wall_ms"] = json!(t0.elapsed().as_millis() as u64);
-                results.lock().unwrap().push((name.clone(), cj, tr.total_events, tr.runs, files));
+                shared.close();
+                let mut g = totals.lock().unwrap();
+                g.0 += shared.total_events;
+                g.1 += shared.runs;
+                g.2.extend(shared.files.iter().map(|p| p.display().to_string()));
             });
         }
     });
     let mut per_subject = serde_json::Map::new();
-    let (mut events, mut runs) = (0usize, 0usize);
-    let mut files: Vec<String> = vec![];
-    for (name, v, ev, ru, f) in results.into_inner().unwrap() {
+    for (name, v) in results.into_inner().unwrap() {
         per_subject.insert(name, v);
-        events += ev;
-        runs += ru;
-        files.extend(f);
     }
+    let (events, runs, mut files) = totals.into_inner().unwrap();
     files.sort();
     let _ = std::fs::remove_dir(TMP_ROOT);
     write_summary(&a.out, &json!({"mode":"drive","events":events,"runs":runs,"files":files,"subjects":per_subject,
         "mutable_subjects":msubs.len(),"bulk_subjects":bsubs.len()}));
+}
+
+fn isolated(a: &Args, name: &str) -> bool {
+    a.get("isolate").map_or(false, |l| l.split(',').any(|p| !p.is_empty() && name.starts_with(p)))
+}
+
+fn drive_bulk(tr: &mut Tracer, c: &mut Counters, a: &Args, name: &str, thorough: bool) {
+    let sizes: Vec<usize> = if thorough {
+        vec![0, 1, 2, 63, 64, 65, 127, 128, 129, 255, 256, 257, 511, 512, 513, 1023, 1024, 1025, 4097]
+    } else {
+        vec![0, 1, 2, 63, 64, 65, 127, 128, 129, 255, 256, 257, 511, 512, 513]
+    };
+    for p in PROFILES {
+        if name.starts_with("zerolen") && *p != "all_empty" {
+            continue;
+        }
+        for &n in &sizes {
+            // every size with the two irregular profiles; the regular ones and the 64 KiB
+            // record (x compression level 9 adds up) with a few sizes
+            let few: &[usize] = if *p == "big_first" { &[1, 65, 129] } else { &[0, 1, 65, 256, 513] };
+            if !["mixed16", "ragged"].contains(p) && !few.contains(&n) && !(thorough && *p != "big_first") {
+                continue;
+            }
+            bulk_run(tr, c, a, name, p, n);
+        }
+    }
+}
+
+fn drive_mutable(tr: &mut Tracer, c: &mut Counters, a: &Args, name: &str, thorough: bool) {
+    let fams = allowed_families(name);
+    let light: Vec<&'static str> = fams.iter().copied().filter(|f| !f.ends_with("64k")).collect();
+    let heavy_io = name.contains("plain") || name.contains("l19"); // fsync per record / ~50 ms per put
+    let (r1, r2, r3) = match (thorough, heavy_io) {
+        (false, false) => (4, 2, 2),
+        (false, true) => (2, 1, 1),
+        (true, false) => (40, 20, 10),
+        (true, true) => (8, 4, 2),
+    };
+    if name.starts_with("triekey") {
+        for run in 0..r1 + 1 {
+            keyed_run(tr, c, a, name, run, 70, false);
+            keyed_run(tr, c, a, name, run, 70, true);
+        }
+        return;
+    }
+    let small: Vec<&'static str> = ["empty", "one", "eq32", "text"].iter().copied().filter(|f| fams.contains(f)).collect();
+    for run in 0..r1 {
+        random_run(tr, c, a, name, "small", run, 50, &small);
+    }
+    for run in 0..r2 {
+        random_run(tr, c, a, name, "mixed", run, 90, &light);
+    }
+    for run in 0..r3 {
+        random_run(tr, c, a, name, "heavy", run, 40, &fams);
+    }
+    let sizes: &[usize] = if thorough && !heavy_io { &[0, 1, 63, 64, 65, 127, 128, 129, 1025] } else if heavy_io { &[0, 1, 65] } else { &[0, 1, 65, 129] };
+    for &n in sizes {
+        fill_run(tr, c, a, name, n, &fams);
+    }
 }
 
 // ---------------------------------------------------------------- B2: TLC behaviours
@@ -1304,30 +1333,56 @@ fn replay(a: &Args) {
     let behaviours: Vec<Value> = text.lines().filter(|l| !l.trim().is_empty()).map(|l| serde_json::from_str(l).expect("behaviour json")).collect();
     let subs: Vec<String> = mutable_subjects().into_iter().filter(|s| a.wants(s) && !s.starts_with("triekey")).collect();
     let next = AtomicUsize::new(0);
-    let results = std::sync::Mutex::new(Vec::<(String, Value, usize, usize, usize, Vec<String>)>::new());
+    let results = std::sync::Mutex::new(Vec::<(String, Value, usize)>::new());
+    let totals = std::sync::Mutex::new((0usize, 0usize, Vec::<String>::new()));
     let nthreads = a.get_u64("threads", 14) as usize;
     std::thread::scope(|sc| {
-        for _ in 0..nthreads {
-            sc.spawn(|| loop {
-                let i = next.fetch_add(1, Ordering::SeqCst);
-                if i >= subs.len() {
-                    break;
+        for t in 0..nthreads {
+            let (results, totals, next, subs, behaviours) = (&results, &totals, &next, &subs, &behaviours);
+            sc.spawn(move || {
+                let mut shared = Tracer::new(&a.out, &format!("bsb2-t{t:02}"));
+                shared.max_events = 4000;
+                loop {
+                    let i = next.fetch_add(1, Ordering::SeqCst);
+                    if i >= subs.len() {
+                        break;
+                    }
+                    let mut own = if isolated(a, &subs[i]) {
+                        let mut x = Tracer::new(&a.out, &format!("bsb2-s{i:03}"));
+                        x.max_events = usize::MAX;
+                        Some(x)
+                    } else {
+                        None
+                    };
+                    let tr: &mut Tracer = match own.as_mut() {
+                        Some(x) => x,
+                        None => &mut shared,
+                    };
+                    let (v, ex) = replay_subject(a, tr, &subs[i], i, behaviours);
+                    results.lock().unwrap().push((subs[i].clone(), v, ex));
+                    if let Some(mut x) = own {
+                        x.close();
+                        let mut g = totals.lock().unwrap();
+                        g.0 += x.total_events;
+                        g.1 += x.runs;
+                        g.2.extend(x.files.iter().map(|p| p.display().to_string()));
+                    }
                 }
-                let r = replay_subject(a, &subs[i], i, &behaviours);
-                results.lock().unwrap().push(r);
+                shared.close();
+                let mut g = totals.lock().unwrap();
+                g.0 += shared.total_events;
+                g.1 += shared.runs;
+                g.2.extend(shared.files.iter().map(|p| p.display().to_string()));
             });
         }
     });
     let mut per_subject = serde_json::Map::new();
-    let (mut total_exec, mut events, mut runs) = (0usize, 0usize, 0usize);
-    let mut files = vec![];
-    for (name, v, ex, ev, ru, f) in results.into_inner().unwrap() {
+    let mut total_exec = 0usize;
+    for (name, v, ex) in results.into_inner().unwrap() {
         per_subject.insert(name, v);
         total_exec += ex;
-        events += ev;
-        runs += ru;
-        files.extend(f);
     }
+    let (events, runs, mut files) = totals.into_inner().unwrap();
     files.sort();
     let _ = std::fs::remove_dir(TMP_ROOT);
     write_summary(&a.out, &json!({"mode":"replay","behaviours":behaviours.len(),"executions":total_exec,"events":events,"runs":runs,
@@ -1338,10 +1393,8 @@ fn rec_index(v: &Value) -> usize {
     v.as_str().and_then(|x| x[1..].parse::<usize>().ok()).unwrap_or(1) - 1
 }
 
-fn replay_subject(a: &Args, name: &str, idx: usize, behaviours: &[Value]) -> (String, Value, usize, usize, usize, Vec<String>) {
+fn replay_subject(a: &Args, tr: &mut Tracer, name: &str, idx: usize, behaviours: &[Value]) -> (Value, usize) {
     let t0 = std::time::Instant::now();
-    let mut tr = Tracer::new(&a.out, &format!("bsb2-{idx:03}"));
-    tr.max_events = 2500;
     let mut c = Counters::default();
     let mut rng = Rng::new(a.seed).derive("b2sample").derive(name);
     let sample_every = a.get_u64("sample", 300);
@@ -1353,6 +1406,8 @@ fn replay_subject(a: &Args, name: &str, idx: usize, behaviours: &[Value]) -> (St
         a.get_u64("stride_slow", 400) // zstd level 19: ~50 ms per put
     } else if name == "trie:memory" {
         10 // ~2 ms per put
+    } else if name.contains("dictzip") && name != "dictzip:small" {
+        a.get_u64("stride_dz", 4) // dictionary training per rebuilt store: a seeded quarter for the preset variants
     } else {
         1
     };
@@ -1525,15 +1580,13 @@ fn replay_subject(a: &Args, name: &str, idx: usize, behaviours: &[Value]) -> (St
             }
         }
     }
-    tr.close();
     let mut v = c.json();
     v["behaviours"] = json!(executed);
     v["unsupported"] = json!(unsupported);
     v["mismatching"] = json!(mism);
     v["mismatch_traces_written"] = json!(written);
     v["wall_ms"] = json!(t0.elapsed().as_millis() as u64);
-    let files = tr.files.iter().map(|p| p.display().to_string()).collect();
-    (name.to_string(), v, executed, tr.total_events, tr.runs, files)
+    (v, executed)
 }
 
 // ---------------------------------------------------------------- development aid
